@@ -11,9 +11,11 @@ def run(ctx):
     res.rule = ("(a) op programs with channel transfers vs the Lean Net model (registered ids / callback tables are part of the compared digest); (b) transcript "
                 "oracle: ids handed out are pairwise distinct with the allocator's parity; (c) scenarios: 1-3 creator threads x 2-12 open/transfer/close cycles "
                 "(remote creates and sends a channel back, local creates and sends one nested in containers, plain): items arrive on the intended "
-                "conversation, ids distinct, _channels/_callbacks/remote numchannels back at baseline")
+                "conversation, ids distinct, _channels/_callbacks/remote numchannels back at baseline; also under line-level pre-emption (6 per run)")
     netprops.op_level(ctx, res, PROP, ctx.budget(400, 24000, 600))
     netprops.run_scenarios(ctx, res, netprops.scenario_ids, ctx.budget(60, 18000, 250), "ids")
+    # the same with line-level pre-emptions inside execnet's own code (2-3 creator threads): id allocation is a critical section
+    netprops.run_scenarios(ctx, res, netprops.scenario_ids, ctx.budget(40, 3000, 400), "ids-preempt", preempt=6)
     return res
 
 
